@@ -25,14 +25,14 @@ Log == ndJsonDeserialize(IOEnv.TRACE)
 Idle == -2
 
 TInit ==
-  /\ sch = "none" /\ node = Idle /\ reg = <<>> /\ npmin = 0 /\ npmax = 0 /\ steps = 0
+  /\ sch = "none" /\ node = Idle /\ reg = <<>> /\ npmin = 0 /\ npmax = 0 /\ steps = 0 /\ evis = 0 /\ ncalls = 0
   /\ l = 1 /\ pending = <<>> /\ val = <<>> /\ extra = 0
 
 IsEvent(e) == l <= Len(Log) /\ Log[l].e = e /\ l' = l + 1
 
 TReset ==
   /\ IsEvent("Reset")
-  /\ sch' = "none" /\ node' = Idle /\ reg' = <<>> /\ npmin' = 0 /\ npmax' = 0 /\ steps' = 0
+  /\ sch' = "none" /\ node' = Idle /\ reg' = <<>> /\ npmin' = 0 /\ npmax' = 0 /\ steps' = 0 /\ evis' = 0 /\ ncalls' = 0
   /\ pending' = <<>> /\ val' = <<>> /\ extra' = 0
 
 \* a scheme routine may be entered when idle or after the previous one returned (daughter chains)
@@ -40,7 +40,7 @@ TEnter ==
   /\ IsEvent("Enter")
   /\ node \in {Idle, -1} /\ pending = <<>>
   /\ Log[l].s \in SchNames
-  /\ sch' = Log[l].s /\ node' = 0 /\ reg' = <<>> /\ steps' = 0
+  /\ sch' = Log[l].s /\ node' = 0 /\ reg' = <<>> /\ steps' = 0 /\ evis' = 0 /\ ncalls' = 0
   /\ pending' = <<>> /\ val' = <<>> /\ extra' = 0
   /\ UNCHANGED <<npmin, npmax>>
 
